@@ -7,6 +7,7 @@ import (
 	"sort"
 	"strings"
 
+	"pigeonverif/internal/absint"
 	"pigeonverif/internal/variants"
 )
 
@@ -14,9 +15,25 @@ import (
 // (directly or through another must-charge evaluator).
 func mustCharge(a *absVariant) map[string]bool {
 	mc := map[string]bool{"parseExpr": true}
+	// helper methods called from evaluators are summarised and take part in the fixpoint
+	all := map[string]*absint.Result{}
+	for fn, res := range a.Res {
+		all[fn] = res
+	}
+	for _, res := range a.Res {
+		for _, ce := range callsIn(res.Fn.Body) {
+			if sel, ok := ce.Fun.(*ast.SelectorExpr); ok && nospace(sel.X) == "p" {
+				if _, known := all[sel.Sel.Name]; !known && a.In.Roles[sel.Sel.Name] == absint.RoleNone {
+					if sum := a.In.Summary(sel.Sel.Name); sum != nil {
+						all[sel.Sel.Name] = sum
+					}
+				}
+			}
+		}
+	}
 	for changed := true; changed; {
 		changed = false
-		for fn, res := range a.Res {
+		for fn, res := range all {
 			if mc[fn] || len(res.Exits) == 0 {
 				continue
 			}
